@@ -6,6 +6,8 @@ import Upa.Impl.FilePath
 import Upa.Impl.SetRepApi
 import Upa.Impl.ParseRep
 import Upa.Impl.UpdateRep
+import Upa.Impl.SetRepExc
+import Upa.Impl.ObjRep
 import Upa.Spec.Api
 import Upa.Spec.Form
 /-
@@ -83,7 +85,18 @@ def spDump (o : UrlObj) : String :=
   | none, _ => " sp=?"
 
 /-! ### machine state -/
+instance : Inhabited RObj := ⟨{}⟩
+
+/-- the raw offsets (zeros of never-started parts included) of the object as the REPRESENTATION-level object model
+    (Impl/ObjRep.lean: parseRep / setRep / updateRep / whole-representation copies) computes them; the harness prints
+    the real `part_end_` -/
+def rpeDump (ro : RObj) : String :=
+  match ro.rep with
+  | some r => s!" rpe={natList r.partEnd}"
+  | none => ""
+
 structure St where
+  robjs : Array RObj := #[{}, {}, {}, {}]
   objs : Array UrlObj := #[{}, {}, {}, {}]
   specs : Array (Option Url) := #[none, none, none, none]
   params : Array Params := #[{}, {}, {}, {}]
@@ -137,14 +150,21 @@ def exec (idna : Idna) (st : St) (toks : List String) : St × String :=
     -- string-base overloads parse the base first and return its error without touching the object
     let (o', ok) : UrlObj × Bool :=
       if strBase && bI == some none then (st.objs[k]!, false) else st.objs[k]!.parse idna e u bI
+    let bR : Option (Option Rep) :=
+      if base == "-" then none
+      else if base.startsWith "s" then some (st.robjs[(base.drop 1).toNat!]!.rep)
+      else match (base.drop 1).toString.splitOn ":" with
+        | [be, bu] => some (parseRep idna (parseEnc be) (parseUnits bu) none)
+        | _ => some none
+    let ro' : RObj := if strBase && bR == some none then st.robjs[k]! else (st.robjs[k]!.parse idna e u bR).1
     let cp := match bI with
       | some none => false
       | _ => canParse idna e u (bI.bind id)
     let (sres, sok) : Option Url × Bool := match bS with
       | some none => (if strBase then st.specs[k]! else none, false)
       | _ => let r := Spec.apiParse idna e u (bS.bind id); (r, r.isSome)
-    ({ st with objs := st.objs.set! k o', specs := st.specs.set! k sres },
-     s!"ok={b01 ok} cp={b01 cp} {dumpImpl idna o'.url}{spDump o'} ## ok={b01 sok} {dumpSpec idna sres}")
+    ({ st with objs := st.objs.set! k o', specs := st.specs.set! k sres, robjs := st.robjs.set! k ro' },
+     s!"ok={b01 ok} cp={b01 cp} {dumpImpl idna o'.url}{spDump o'}{rpeDump ro'} ## ok={b01 sok} {dumpSpec idna sres}")
   | ["set", slot, setter, enc, units] =>
     let k := slot.toNat!
     let e := parseEnc enc
@@ -154,11 +174,12 @@ def exec (idna : Idna) (st : St) (toks : List String) : St × String :=
     let sres := match st.specs[k]! with
       | some su => some (Spec.apiSet idna s e u su)
       | none => if s == .href then Spec.apiParse idna e u none else none
-    ({ st with objs := st.objs.set! k o', specs := st.specs.set! k sres },
-     s!"ret={b01 ret} {dumpImpl idna o'.url}{spDump o'} ## {dumpSpec idna sres}")
+    let ro' := (st.robjs[k]!.set idna s e u).1
+    ({ st with objs := st.objs.set! k o', specs := st.specs.set! k sres, robjs := st.robjs.set! k ro' },
+     s!"ret={b01 ret} {dumpImpl idna o'.url}{spDump o'}{rpeDump ro'} ## {dumpSpec idna sres}")
   | ["dump", slot] =>
     let k := slot.toNat!
-    (st, s!"{dumpImpl idna st.objs[k]!.url}{spDump st.objs[k]!} ## {dumpSpec idna st.specs[k]!}")
+    (st, s!"{dumpImpl idna st.objs[k]!.url}{spDump st.objs[k]!}{rpeDump st.robjs[k]!} ## {dumpSpec idna st.specs[k]!}")
   | ["probe", slot] =>
     let k := slot.toNat!
     (st, (if st.objs[k]!.url.isSome then "probe=ok" else "probe=invalid") ++ " ## ~")
@@ -176,12 +197,23 @@ def exec (idna : Idna) (st : St) (toks : List String) : St × String :=
       | "movec" => let (a, b) := moveAssign os; (a, b, st.specs[s]!, none)
       | "swap" => (os, od, st.specs[s]!, st.specs[d]!)
       | _ => let (a, b) := safeAssign od os; (a, b, st.specs[s]!, none)    -- safea
+    let rd := st.robjs[d]!
+    let rs := st.robjs[s]!
+    let (rd', rs') : RObj × RObj :=
+      match op with
+      | "clear" => (rd.clear, rs)
+      | "copya" => (rCopyAssign rd rs, rs)
+      | "copyc" => (rCopyConstruct rs, rs)
+      | "movea" => rMoveAssign rs
+      | "movec" => rMoveAssign rs
+      | "swap" => rSwap rd rs
+      | _ => rSafeAssign rd rs
     let st' :=
       if d = s then
         -- self operations: clear only (others are not generated on the same slot)
-        if op == "clear" then { st with objs := st.objs.set! d od', specs := st.specs.set! d none } else st
-      else { st with objs := (st.objs.set! d od').set! s os', specs := (st.specs.set! d sd').set! s ss' }
-    (st', s!"d={dumpImpl idna st'.objs[d]!.url}{spDump st'.objs[d]!} s={dumpImpl idna st'.objs[s]!.url}{spDump st'.objs[s]!} ## ~")
+        if op == "clear" then { st with objs := st.objs.set! d od', specs := st.specs.set! d none, robjs := st.robjs.set! d rd' } else st
+      else { st with objs := (st.objs.set! d od').set! s os', specs := (st.specs.set! d sd').set! s ss', robjs := (st.robjs.set! d rd').set! s rs' }
+    (st', s!"d={dumpImpl idna st'.objs[d]!.url}{spDump st'.objs[d]!}{rpeDump st'.robjs[d]!} s={dumpImpl idna st'.objs[s]!.url}{spDump st'.objs[s]!}{rpeDump st'.robjs[s]!} ## ~")
   | "sp" :: slot :: op :: args =>
     let k := slot.toNat!
     let o := st.objs[k]!
@@ -223,15 +255,33 @@ def exec (idna : Idna) (st : St) (toks : List String) : St × String :=
         let src := st.params[j]!
         (o.spApply (fun _ => { list := src.list, isSorted := src.isSorted }), "-")
       | _ => (o, "?")
+    let ro := st.robjs[k]!
+    let srcP (j : Nat) : Params := st.params[j]!
+    let ro' : RObj :=
+      match op with
+      | "append" => ro.spApply (·.append (arg 0) (arg 1))
+      | "set" => ro.spApply (·.set (arg 0) (arg 1))
+      | "del" => ro.spApply (·.del (arg 0))
+      | "del2" => ro.spApply (·.del2 (arg 0) (arg 1))
+      | "remove" => ro.spApply (·.del (arg 0)) false
+      | "remove2" => ro.spApply (·.del2 (arg 0) (arg 1)) false
+      | "sort" => ro.spApply (·.sort)
+      | "clear" => ro.spApply (·.clear)
+      | "parse" => ro.spApply (fun p => p.parse true (arg 0))
+      | "assign" => ro.spApply (fun _ => { list := (srcP (args.getD 0 "0").toNat!).list, isSorted := (srcP (args.getD 0 "0").toNat!).isSorted })
+      | "safea" => ro.spApply (fun _ => { list := (srcP (args.getD 0 "0").toNat!).list, isSorted := (srcP (args.getD 0 "0").toNat!).isSorted })
+      | "get" => ro.searchParams | "has" => ro.searchParams | "has2" => ro.searchParams | "getv" => ro.searchParams
+      | "getall" => ro.searchParams | "size" => ro.searchParams | "str" => ro.searchParams
+      | _ => ro
     -- the Standard has no separate answer for these operations: the Spec slot follows the model
-    let st' := { st with objs := st.objs.set! k o', specs := st.specs.set! k o'.url }
+    let st' := { st with objs := st.objs.set! k o', specs := st.specs.set! k o'.url, robjs := st.robjs.set! k ro' }
     let st' := if op == "safea" then
         let j := (args.getD 0 "0").toNat!
         { st' with params := st'.params.set! j { list := [], isSorted := st'.params[j]!.isSorted } }
       else st'
     -- results read from the params object of an invalid URL are not compared (see `spDump`)
     let r := if o'.url.isNone then "?" else r
-    (st', s!"r={r} {dumpImpl idna o'.url}{spDump o'} ## ~")
+    (st', s!"r={r} {dumpImpl idna o'.url}{spDump o'}{rpeDump ro'} ## ~")
   | "psp" :: slot :: op :: args =>
     let k := slot.toNat!
     let p := st.params[k]!
@@ -287,7 +337,7 @@ def exec (idna : Idna) (st : St) (toks : List String) : St × String :=
     let st' := { st with params := st.params.set! k p' }
     let st' := if op == "fromurl" then
         let j := (args.getD 0 "0").toNat!
-        if st'.objs[j]!.url.isSome then { st' with objs := st'.objs.set! j st'.objs[j]!.searchParams } else st'
+        if st'.objs[j]!.url.isSome then { st' with objs := st'.objs.set! j st'.objs[j]!.searchParams, robjs := st'.robjs.set! j st'.robjs[j]!.searchParams } else st'
       else st'
     let rS := if s.startsWith "r=" || s == "~" then s else s!"r={r} {s}"
     (st', s!"r={r} {dumpP p'} ## {rS}")
@@ -590,6 +640,25 @@ def setrepStep (idna : Idna) (line : String) : String :=
     | _, _, _ => "BADSTEP"
   | _ => "BADLINE"
 
+/-- `driver failstates`: a line `set <setter> 8 <units> <n> | <raw before> | <raw after>` from the fault harness — the raw
+    representation after the n-th `operator new` inside the setter call failed. The state must be one of the states the
+    exception-aware operational model (Impl/SetRepExc.lean) can be left in by a failing primitive. -/
+def failstateStep (idna : Idna) (line : String) : String :=
+  match line.splitOn " | " with
+  | [op, before, after] =>
+    match parseRawRep (before.splitOn " "), parseRawRep (after.splitOn " "), op.splitOn " " with
+    | some b, some a, [_, sname, enc, units, _] =>
+      let pts := (setRepT idna (parseSetter sname) (parseEnc enc) (parseUnits units) b).pts
+      if pts.contains a then "ok" else s!"NOTMEMBER points={pts.length} state={rawRepStr a}"
+    | _, _, _ => "BADSTEP"
+  | _ => "BADLINE"
+
+partial def failstateLoop (idna : Idna) (h out : IO.FS.Stream) : IO Unit := do
+  let line ← h.getLine
+  if line.isEmpty then return ()
+  out.putStrLn (failstateStep idna line.trimAsciiEnd.toString)
+  failstateLoop idna h out
+
 partial def setrepLoop (idna : Idna) (h out : IO.FS.Stream) : IO Unit := do
   let line ← h.getLine
   if line.isEmpty then return ()
@@ -600,4 +669,5 @@ def main (args : List String) : IO Unit := do
   let stdin ← IO.getStdin
   let stdout ← IO.getStdout
   if args == ["setrep"] then setrepLoop idnaOracle stdin stdout
+  else if args == ["failstates"] then failstateLoop idnaOracle stdin stdout
   else loop idnaOracle stdin stdout {}
